@@ -392,6 +392,8 @@ func (e *kvElection) becomeLeader(token string, rev uint64) {
 	e.token.Store(token)
 	e.revision.Store(rev)
 	e.state.Store(StateLeader)
+	// Health failures are counted per term.
+	e.healthFailureCount.Store(0)
 	now := time.Now()
 	e.lastHeartbeat.Store(now)
 	e.lastTransition.Store(now)
